@@ -196,7 +196,7 @@ class Gen:
             return ["snap", name, "b0"]
         if k == "push":
             # (half of the pushes carry a Python literal: several push sites of one signal, each with its own literal)
-            return ["push", ["k", rs.below(16)] if rs.below(2) else self.vexpr(env), rs.below(2)]
+            return ["push", ["k", rs.below(16)] if rs.below(2) else self.vexpr(env), rs.below(3)]
         if k == "rdptr":
             # read-pointer idiom: an array element selected by a bare index variable is bound to a name, the variable is
             # advanced, and only then the element is used (program order: the element of the OLD index)
@@ -507,7 +507,8 @@ def r_block(stmts, ind, out):
             else:
                 out.append(f"{pad}{s[1]} @= {r_v(s[2])}")
         elif k == "push":
-            out.append(f"{pad}self.pz.push = {r_v(s[1])}" if s[2] else f"{pad}self.pz ^= {r_v(s[1])}")
+            # (form 2: the explicit-mode assignment that std aggregates -- Record, Array, fixed point ... -- forward their `^=` to)
+            out.append(f"{pad}std.assign(self.pz, {r_v(s[1])}, cohdl.AssignMode.PUSH)" if s[2] == 2 else f"{pad}self.pz.push = {r_v(s[1])}" if s[2] else f"{pad}self.pz ^= {r_v(s[1])}")
         elif k == "rdptr":
             out.append(f"{pad}{s[1]} = mem[vi]")
             out.append(f"{pad}vi @= vi + {s[3]}")
